@@ -1,15 +1,19 @@
 package main
 
 import (
+	"bufio"
 	"bytes"
+	"encoding/binary"
 	"flag"
 	"fmt"
 	"io"
 	"os"
+	"sync"
 
 	simdjson "github.com/minio/simdjson-go"
 
 	"verif/harness/internal/abs"
+	"verif/harness/internal/blob"
 	"verif/harness/internal/read"
 	"verif/harness/internal/run"
 	"verif/harness/internal/tapex"
@@ -36,6 +40,8 @@ type editCase struct {
 	err   bool
 	vis   []tapex.Visit
 	nd    bool
+	serT  []string    // spec tag stream
+	serV  []tla.Value // spec value stream
 }
 
 func pathKey(p []int) string { return fmt.Sprint(p) }
@@ -66,6 +72,12 @@ func parseEditState(st tla.State) editCase {
 			c.paths = append(c.paths, p)
 			c.subs[pathKey(p)] = e.Bytes()
 		}
+	}
+	if ser, ok := out.F["ser"]; ok {
+		for _, t := range ser.Field("t").E {
+			c.serT = append(c.serT, t.S)
+		}
+		c.serV = ser.Field("v").E
 	}
 	for _, v := range out.Field("vis").E {
 		if len(v.E) == 2 && v.E[0].K == tla.Seq && (len(v.E[0].E) == 0 || v.E[0].E[0].K == tla.Int) && v.E[1].K == tla.Seq && len(v.E[1].E) > 0 && v.E[1].E[0].K == tla.Str {
@@ -128,6 +140,7 @@ func gedit(args []string) error {
 	prop := fs.String("property", "ALL", "property whose aspects are reported")
 	expect := fs.Int64("expect", -1, "number of states TLC reported")
 	serModes := fs.Int("sermodes", 1, "how many compression modes to round-trip per state (1..4)")
+	blobsOut := fs.String("blobs", "", "write serialized blobs with the expected marshalled text here (for the noasm reader)")
 	fs.Parse(args)
 	var r io.Reader = os.Stdin
 	if *dump != "-" {
@@ -139,6 +152,15 @@ func gedit(args []string) error {
 		r = f
 	}
 	rep := run.NewReport()
+	if *blobsOut != "" {
+		bf, err := os.Create(*blobsOut)
+		if err != nil {
+			return err
+		}
+		defer bf.Close()
+		blobW = bufio.NewWriterSize(bf, 1<<20)
+		defer blobW.Flush()
+	}
 	var batch []editCase
 	flush := func() {
 		replayEdits(rep, batch, *prop, *serModes)
@@ -169,6 +191,10 @@ type editCfg struct {
 }
 
 var serializers = make([]*simdjson.Serializer, run.MaxWorkers)
+var deserializers = make([]*simdjson.Serializer, run.MaxWorkers)
+var deserDst = make([]*simdjson.ParsedJson, run.MaxWorkers)
+var blobW *bufio.Writer
+var blobMu sync.Mutex
 
 func replayEdits(rep *run.Report, batch []editCase, prop string, serModes int) {
 	var wev, wnt [run.MaxWorkers * 8]int64
@@ -270,15 +296,28 @@ func replayEdits(rep *run.Report, batch []editCase, prop string, serModes int) {
 				}
 			}
 			// serialize round trip
-			s := serializers[w]
-			if s == nil {
-				s = simdjson.NewSerializer()
-				serializers[w] = s
+			if serializers[w] == nil {
+				serializers[w] = simdjson.NewSerializer()
+				deserializers[w] = simdjson.NewSerializer()
 			}
 			for k := 0; k < serModes; k++ {
 				mode := simdjson.CompressMode((i + k) % 4)
-				if serr := roundTrip(s, pj, mode, c.docs); serr != nil {
-					fail("serialize", "round trip", "mismatch", fmt.Sprintf("mode %d: %v", mode, serr))
+				dmode := simdjson.CompressMode((i/4 + k) % 4)
+				var dst *simdjson.ParsedJson
+				if (i/16)%2 == 1 {
+					dst = deserDst[w] // reused destination
+				}
+				back, blobBytes, aspect, serr := roundTrip(serializers[w], deserializers[w], pj, mode, dmode, dst, c)
+				if serr != nil {
+					fail(aspect, "round trip per Serializer.tla", "mismatch", fmt.Sprintf("serialize mode %d, deserializer mode %d, reused dst %v: %v", mode, dmode, dst != nil, serr))
+				}
+				if back != nil {
+					deserDst[w] = back
+				}
+				if blobW != nil && blobBytes != nil && (avx512 || !run.HasAVX512) && k == 0 {
+					blobMu.Lock()
+					fmt.Fprintf(blobW, "%s %s\n", run.Hex(blobBytes), run.Hex(c.text))
+					blobMu.Unlock()
 				}
 			}
 			if avx512 || !run.HasAVX512 {
@@ -298,28 +337,172 @@ func replayEdits(rep *run.Report, batch []editCase, prop string, serModes int) {
 	}
 }
 
-func roundTrip(s *simdjson.Serializer, pj *simdjson.ParsedJson, mode simdjson.CompressMode, docs []abs.Value) (err error) {
+func roundTrip(s, d *simdjson.Serializer, pj *simdjson.ParsedJson, mode, dmode simdjson.CompressMode, dst *simdjson.ParsedJson, c *editCase) (back *simdjson.ParsedJson, blobBytes []byte, aspect string, err error) {
+	aspect = "serialize"
 	defer func() {
 		if r := recover(); r != nil {
 			err = fmt.Errorf("PANIC: %v", r)
 		}
 	}()
 	s.CompressMode(mode)
-	blob := s.Serialize(nil, *pj)
-	back, derr := s.Deserialize(blob, nil)
-	if derr != nil {
-		return fmt.Errorf("Deserialize: %w", derr)
-	}
-	return read.Compare(back, docs)
-}
-
-func rootsAreContainers(docs []abs.Value) bool {
-	for _, d := range docs {
-		if d.K != 'a' && d.K != 'o' {
-			return false
+	d.CompressMode(dmode)
+	blobBytes = s.Serialize(nil, *pj)
+	if c.serT != nil {
+		if berr := compareStreams(blobBytes, c, len(pj.Tape)); berr != nil {
+			return nil, blobBytes, aspect, berr
 		}
 	}
-	return true
+	back, derr := d.Deserialize(blobBytes, dst)
+	if derr != nil {
+		return nil, blobBytes, aspect, fmt.Errorf("Deserialize: %w", derr)
+	}
+	if cerr := read.Compare(back, c.docs); cerr != nil {
+		return back, blobBytes, aspect, cerr
+	}
+	// the reconstructed tape: same tags and pointers, canonical NOP runs (C17)
+	if terr := checkDeserTape(pj, back); terr != nil {
+		return back, blobBytes, "detape", terr
+	}
+	return back, blobBytes, aspect, nil
+}
+
+// compareStreams checks the tag stream and the value stream of a blob (any
+// compression mode) against Serializer!Ser.
+func compareStreams(b []byte, c *editCase, tapeLen int) error {
+	bl, err := blob.Parse(b)
+	if err != nil {
+		return fmt.Errorf("blob framing: %w", err)
+	}
+	if bl.Version != 3 || int(bl.TapeLen) != tapeLen || len(bl.Strings) != 0 {
+		return fmt.Errorf("header: version %d tape %d strings %d", bl.Version, bl.TapeLen, len(bl.Strings))
+	}
+	if len(bl.Tags) != len(c.serT) {
+		return fmt.Errorf("tag stream %q, spec %q", bl.Tags, c.serT)
+	}
+	vals := bl.Values
+	vi := 0
+	next := func() (uint64, error) {
+		if len(vals) < 8 {
+			return 0, fmt.Errorf("value stream too short")
+		}
+		v := binary.LittleEndian.Uint64(vals)
+		vals = vals[8:]
+		return v, nil
+	}
+	for k, tg := range c.serT {
+		if bl.Tags[k] != tg[0] {
+			return fmt.Errorf("tag #%d %c, spec %s (stream %q)", k, bl.Tags[k], tg, bl.Tags)
+		}
+		switch tg {
+		case "\"":
+			off, err := next()
+			if err != nil {
+				return err
+			}
+			ln, err := next()
+			if err != nil {
+				return err
+			}
+			sv, lv := c.serV[vi], c.serV[vi+1]
+			vi += 2
+			if int64(ln) != lv.E[1].I {
+				return fmt.Errorf("string length %d, spec %d", ln, lv.E[1].I)
+			}
+			if off+ln > uint64(len(bl.Message)) {
+				return fmt.Errorf("string %d+%d outside the string section (%d)", off, ln, len(bl.Message))
+			}
+			if !(len(sv.E[1].E) == 1 && sv.E[1].E[0].K == tla.Str) { // content known to the spec
+				if !bytes.Equal(bl.Message[off:off+ln], sv.E[1].Bytes()) {
+					return fmt.Errorf("string content %q, spec %q", bl.Message[off:off+ln], sv.E[1].Bytes())
+				}
+			}
+		case "l", "u", "d":
+			w, err := next()
+			if err != nil {
+				return err
+			}
+			want, perr := tapex.NumBits(tg, c.serV[vi].E[1].Bytes())
+			vi++
+			if perr != nil || w != want {
+				return fmt.Errorf("number word %x, spec %x", w, want)
+			}
+		case "e":
+			w0, err := next()
+			if err != nil {
+				return err
+			}
+			w1, err := next()
+			if err != nil {
+				return err
+			}
+			wd, nv := c.serV[vi], c.serV[vi+1]
+			vi += 2
+			if w0 != uint64(wd.E[1].S[0])<<56|uint64(wd.E[2].I) {
+				return fmt.Errorf("flagged float tag word %x", w0)
+			}
+			want, perr := tapex.NumBits("d", nv.E[1].Bytes())
+			if perr != nil || w1 != want {
+				return fmt.Errorf("number word %x, spec %x", w1, want)
+			}
+		case "{", "[", "r":
+			w, err := next()
+			if err != nil {
+				return err
+			}
+			if int64(w) != c.serV[vi].E[1].I {
+				return fmt.Errorf("relative offset %d, spec %d", int64(w), c.serV[vi].E[1].I)
+			}
+			vi++
+		}
+	}
+	if len(vals) != 0 || vi != len(c.serV) {
+		return fmt.Errorf("value stream has %d bytes left / spec values consumed %d of %d", len(vals), vi, len(c.serV))
+	}
+	return nil
+}
+
+// checkDeserTape: the deserialized tape has the tags and pointers of the
+// original, strings in Message, and NOP runs counting down to the next live word.
+func checkDeserTape(orig, back *simdjson.ParsedJson) error {
+	if len(orig.Tape) != len(back.Tape) {
+		return fmt.Errorf("deserialized tape has %d words, original %d", len(back.Tape), len(orig.Tape))
+	}
+	for i := 0; i < len(orig.Tape); i++ {
+		ot, bt := byte(orig.Tape[i]>>56), byte(back.Tape[i]>>56)
+		if ot != bt {
+			return fmt.Errorf("deserialized tape[%d] tag %c, original %c", i, bt, ot)
+		}
+		switch ot {
+		case 'N':
+			d := int(back.Tape[i] & simdjson.JSONVALUEMASK)
+			if d < 1 || i+d > len(back.Tape) {
+				return fmt.Errorf("deserialized NOP at %d skips %d", i, d)
+			}
+			for j := i + 1; j < i+d; j++ {
+				if byte(back.Tape[j]>>56) != 'N' {
+					return fmt.Errorf("NOP run at %d (skip %d) crosses a live word at %d", i, d, j)
+				}
+			}
+			if i+d < len(back.Tape) && byte(back.Tape[i+d]>>56) == 'N' {
+				return fmt.Errorf("NOP at %d (skip %d) lands on another NOP", i, d)
+			}
+		case '"':
+			if back.Tape[i]&simdjson.STRINGBUFBIT != 0 {
+				return fmt.Errorf("deserialized string at %d points into the string buffer", i)
+			}
+			i++
+		case 'l', 'u', 'd':
+			if orig.Tape[i] != back.Tape[i] || orig.Tape[i+1] != back.Tape[i+1] {
+				return fmt.Errorf("deserialized number at %d differs", i)
+			}
+			i++
+		default:
+			if orig.Tape[i] != back.Tape[i] {
+				return fmt.Errorf("deserialized tape[%d] = %x, original %x", i, back.Tape[i], orig.Tape[i])
+			}
+		}
+	}
+	return nil
 }
 
 type marshalled struct {
@@ -425,4 +608,13 @@ func navScoped(pj *simdjson.ParsedJson, path []int) (*simdjson.Iter, error) {
 		}
 	}
 	return &cur, nil
+}
+
+func rootsAreContainers(docs []abs.Value) bool {
+	for _, d := range docs {
+		if d.K != 'a' && d.K != 'o' {
+			return false
+		}
+	}
+	return true
 }
